@@ -9,6 +9,19 @@
 using namespace datasketches;
 namespace vf {
 
+// strings are binary data: some carry NUL bytes (inside, leading) and bytes >= 0x80 -- decided from the content,
+// without extra RNG draws (gen_val itself is shared with the recorded corpus recipes and must not change)
+static Val gen_val_bin(Rng& r, uint64_t domain, int kind = -1) {
+  Val v = gen_val(r, domain, kind);
+  if (v.kind == V_STR && v.s.size() >= 2) {
+    uint64_t h = 1469598103934665603ULL; for (unsigned char c : v.s) h = (h ^ c) * 1099511628211ULL;
+    if (h % 5 == 0) { v.s[(h >> 8) % v.s.size()] = '\0'; count("string_inputs_with_nul_byte"); }
+    else if (h % 7 == 0) { v.s[0] = '\0'; count("string_inputs_with_nul_byte"); }
+    if (h % 6 == 1) v.s.back() = char(0x80 + (h >> 16) % 128);
+  }
+  return v;
+}
+
 const char* property_id() { return "C01"; }
 unsigned case_timeout_s() { return 120; }
 uint64_t num_cases(bool thorough) { return thorough ? 60000 : 2400; }
@@ -171,7 +184,7 @@ void run_case(uint64_t idx, Rng& r) {
     const uint64_t op = r.below(1000);
     const char* what = "update";
     if (op < 960) {
-      Val v = gen_val(r, domain, fixed_kind);
+      Val v = gen_val_bin(r, domain, fixed_kind);
       apply_update(*L.sk, v);
       count(std::string("update_") + kind_name(v.kind));
       if (!v.ignored()) {
@@ -225,7 +238,7 @@ void run_case(uint64_t idx, Rng& r) {
           if (r.coin()) {   // the assignee must behave like its source from now on, also after a reset
             pool[a].sk->reset(); pool[a].m.seen.clear(); pool[a].m.nonempty = false; pool[a].m.last_valid = false; pool[a].offered.clear(); count("reset_after_assign");
             observe(pool[a], "reset-after-copy-assign");
-            for (int j = 0; j < 40; ++j) { Val v = gen_val(r, domain, fixed_kind); apply_update(*pool[a].sk, v); if (!v.ignored()) { pool[a].m.seen.insert(v.ref_hash(pool[a].m.seed).h1 >> 1); pool[a].m.nonempty = true; } }
+            for (int j = 0; j < 40; ++j) { Val v = gen_val_bin(r, domain, fixed_kind); apply_update(*pool[a].sk, v); if (!v.ignored()) { pool[a].m.seen.insert(v.ref_hash(pool[a].m.seed).h1 >> 1); pool[a].m.nonempty = true; } }
             observe(pool[a], "updates-after-reset-after-copy-assign");
           }
         }
@@ -239,7 +252,7 @@ void run_case(uint64_t idx, Rng& r) {
           if (r.coin()) {
             pool[a].sk->reset(); pool[a].m.seen.clear(); pool[a].m.nonempty = false; pool[a].m.last_valid = false; pool[a].offered.clear(); count("reset_after_assign");
             observe(pool[a], "reset-after-move-assign");
-            for (int j = 0; j < 40; ++j) { Val v = gen_val(r, domain, fixed_kind); apply_update(*pool[a].sk, v); if (!v.ignored()) { pool[a].m.seen.insert(v.ref_hash(pool[a].m.seed).h1 >> 1); pool[a].m.nonempty = true; } }
+            for (int j = 0; j < 40; ++j) { Val v = gen_val_bin(r, domain, fixed_kind); apply_update(*pool[a].sk, v); if (!v.ignored()) { pool[a].m.seen.insert(v.ref_hash(pool[a].m.seed).h1 >> 1); pool[a].m.nonempty = true; } }
             observe(pool[a], "updates-after-reset-after-move-assign");
           }
           pool.erase(pool.begin() + b);   // moved-from must be destructible
